@@ -49,7 +49,7 @@ theorem exec_append (E : EvalEnv) (a b : List Op) (s : St) :
 
 /-- the fragment set covered by T3 so far. -/
 def inS1 : Ms → Bool
-  | .f0 | .f1 | .pk_k _ => true
+  | .f0 | .f1 | .pk_k _ | .pk_h _ | .hash _ _ => true
   | .wrap w x => (w == .c || w == .v || w == .a || w == .n) && inS1 x
   | .bin b x y =>
     (b == .and_v || b == .and_b || b == .or_b || b == .or_i || b == .or_c || b == .or_d) &&
@@ -99,6 +99,13 @@ theorem exec_skip (E : EvalEnv) (ctx : Ctx) (h160 : Bytes → Bytes) :
   | .f0, _, st, al, cs, _, hc => exec_one_skip E .op0 st al cs rfl hc
   | .f1, _, st, al, cs, _, hc => exec_one_skip E .op1 st al cs rfl hc
   | .pk_k k, _, st, al, cs, _, hc => exec_one_skip E (.push k) st al cs rfl hc
+  | .pk_h k, _, st, al, cs, _, hc => by
+    have hs := fun o ho os => exec_cons_skip E o os st al cs ho hc
+    simp [opsOf, hs .dup rfl, hs .hash160 rfl, hs (.push (h160 k)) rfl, hs .equalverify rfl]
+  | .hash h d, v, st, al, cs, _, hc => by
+    have hs := fun o ho os => exec_cons_skip E o os st al cs ho hc
+    cases v <;> simp [opsOf, hs .size rfl, hs (.pushnum 32) rfl, hs .equalverify rfl, hs (.hashop h) rfl,
+      hs (.push d) rfl, hs .equal rfl]
   | .wrap w x, v, st, al, cs, hin, hc => by
     simp only [inS1, Bool.and_eq_true, Bool.or_eq_true, beq_iff_eq] at hin
     have H := fun v => exec_skip E ctx h160 x v st al cs hin.2 hc
@@ -139,6 +146,8 @@ mutual
 inductive Sat (E : EvalEnv) : Ms → List Bytes → Prop
   | f1 : Sat E .f1 []
   | pk_k (k : Key) (σ : Bytes) : E.sigOK k σ = true → Sat E (.pk_k k) [σ]
+  | pk_h (k : Key) (σ : Bytes) : E.sigOK k σ = true → Sat E (.pk_h k) [k, σ]
+  | hash (h : HashKind) (d p : Bytes) : p.length = 32 → E.hashF h p = d → Sat E (.hash h d) [p]
   | wrap (w : Wrap) (x : Ms) (s : List Bytes) : Sat E x s → Sat E (.wrap w x) s
   | and_v (x y : Ms) (sx sy : List Bytes) :
     Sat E x sx → Sat E y sy → Sat E (.bin .and_v x y) (sx ++ sy)
@@ -166,6 +175,8 @@ inductive Sat (E : EvalEnv) : Ms → List Bytes → Prop
 inductive Dsat (E : EvalEnv) : Ms → List Bytes → Prop
   | f0 : Dsat E .f0 []
   | pk_k (k : Key) : Dsat E (.pk_k k) [[]]
+  | pk_h (k : Key) : Dsat E (.pk_h k) [k, []]
+  | hash (h : HashKind) (d p : Bytes) : p.length = 32 → E.hashF h p ≠ d → Dsat E (.hash h d) [p]
   | wrap_c (x : Ms) (s : List Bytes) : Dsat E x s → Dsat E (.wrap .c x) s
   | wrap_a (x : Ms) (s : List Bytes) : Dsat E x s → Dsat E (.wrap .a x) s
   | and_b (x y : Ms) (sx sy : List Bytes) :
@@ -367,7 +378,7 @@ end
 
 /-- in S1, and typed at every node. -/
 def s1Typed (ctx : Ctx) : Ms → Bool
-  | .f0 | .f1 | .pk_k _ => true
+  | .f0 | .f1 | .pk_k _ | .pk_h _ | .hash _ _ => true
   | .wrap w x =>
     (w == .c || w == .v || w == .a || w == .n) &&
       decide ((typeOf ctx (.wrap w x)).basicCount = 1) && s1Typed ctx x
@@ -380,7 +391,7 @@ def s1Typed (ctx : Ctx) : Ms → Bool
   | _ => false
 
 theorem inS1_of_s1Typed (ctx : Ctx) : ∀ n, s1Typed ctx n = true → inS1 n = true
-  | .f0, _ | .f1, _ | .pk_k _, _ => rfl
+  | .f0, _ | .f1, _ | .pk_k _, _ | .pk_h _, _ | .hash _ _, _ => rfl
   | .wrap w x, h => by
     simp only [s1Typed, Bool.and_eq_true] at h
     simp [inS1, h.1.1, inS1_of_s1Typed ctx x h.2]
@@ -390,7 +401,7 @@ theorem inS1_of_s1Typed (ctx : Ctx) : ∀ n, s1Typed ctx n = true → inS1 n = t
   | .andor x y z, h => by
     simp only [s1Typed, Bool.and_eq_true] at h
     simp [inS1, inS1_of_s1Typed ctx x h.1.1.2, inS1_of_s1Typed ctx y h.1.2, inS1_of_s1Typed ctx z h.2]
-  | .pk_h _, h | .older _, h | .after _, h | .hash _ _, h | .multi _ _, h | .multi_a _ _, h
+  | .older _, h | .after _, h | .multi _ _, h | .multi_a _ _, h
   | .thresh _ _ _, h => by simp [s1Typed] at h
 
 theorem exec_cons_run (E : EvalEnv) (o : Op) (os : List Op) (st al : List Bytes)
@@ -460,6 +471,50 @@ theorem sound_pk_k (hsig0 : ∀ k, E.sigOK k [] = false) (k : Key) : Sound E ctx
       exact ⟨k, σ, hσ, by simp [opsOf, exec_cons_run E (.push k) [] _ al cs rfl hc, stepExec]⟩
   · intro s stk al cs hc hs; cases hs
     exact ⟨k, [], hsig0 k, by simp [opsOf, exec_cons_run E (.push k) [] _ al cs rfl hc, stepExec]⟩
+
+theorem sound_pk_h (hsig0 : ∀ k, E.sigOK k [] = false) (hH : ∀ k, E.hashF .hash160 k = h160 k)
+    (k : Key) : Sound E ctx h160 (.pk_h k) := by
+  have run : ∀ σ stk al cs, executing cs = true →
+      exec E (opsOf ctx h160 false (.pk_h k)) ⟨[k, σ] ++ stk, al, cs⟩ = some ⟨k :: σ :: stk, al, cs⟩ := by
+    intro σ stk al cs hc
+    simp [opsOf, exec_cons_run E .dup _ _ al cs rfl hc, exec_cons_run E .hash160 _ _ al cs rfl hc,
+      exec_cons_run E (.push (h160 k)) _ _ al cs rfl hc, exec_cons_run E .equalverify _ _ al cs rfl hc,
+      stepExec, hH]
+  refine sound_of_K E ctx h160 _ rfl rfl ⟨?_, ?_⟩
+  · intro s stk al cs hc hs; cases hs with
+    | pk_h _ σ hσ => exact ⟨k, σ, hσ, run σ stk al cs hc⟩
+  · intro s stk al cs hc hs; cases hs
+    exact ⟨k, [], hsig0 k, run [] stk al cs hc⟩
+
+theorem encodeNum_32 : encodeNum 32 = [32] := by decide
+
+theorem sound_hash (h : HashKind) (d : Bytes) : Sound E ctx h160 (.hash h d) := by
+  have run : ∀ (v : Bool) p stk al cs, executing cs = true → p.length = 32 →
+      exec E [.size, .pushnum 32, .equalverify, .hashop h, .push d] ⟨[p] ++ stk, al, cs⟩ =
+        some ⟨d :: E.hashF h p :: stk, al, cs⟩ := by
+    intro _ p stk al cs hc hp
+    simp [exec_cons_run E .size _ _ al cs rfl hc, exec_cons_run E (.pushnum 32) _ _ al cs rfl hc,
+      exec_cons_run E .equalverify _ _ al cs rfl hc, exec_cons_run E (.hashop h) _ _ al cs rfl hc,
+      exec_cons_run E (.push d) _ _ al cs rfl hc, stepExec, hp]
+  have hops : ∀ v, opsOf ctx h160 v (.hash h d) =
+      [.size, .pushnum 32, .equalverify, .hashop h, .push d] ++ [if v then .equalverify else .equal] := by
+    intro v; simp [opsOf]
+  have hx : (typeOf ctx (.hash h d)).x = false := rfl
+  refine sound_of_B E ctx h160 _ rfl rfl ⟨?_, ?_, ?_⟩
+  · intro s stk al cs hc hs; cases hs with
+    | hash _ _ p hp hd =>
+      rw [hops, exec_append, run false p stk al cs hc hp, Option.bind_some]
+      simp [exec_cons_run E .equal [] _ al cs rfl hc, stepExec, hd, boolBytes]
+  · intro s stk al cs hc hs; cases hs with
+    | hash _ _ p hp hd =>
+      rw [hops, exec_append, run false p stk al cs hc hp, Option.bind_some]
+      simp [exec_cons_run E .equal [] _ al cs rfl hc, stepExec, hd, boolBytes]
+  · intro s stk al cs hc hs; cases hs with
+    | hash _ _ p hp hd =>
+      rw [hx, hops]
+      simp only [if_true, Bool.false_eq_true, if_false, List.append_nil]
+      rw [exec_append, run true p stk al cs hc hp, Option.bind_some]
+      simp [exec_cons_run E .equalverify [] _ al cs rfl hc, stepExec, hd]
 
 theorem sound_c (x : Ms) (ht : Typed ctx (.wrap .c x)) (ih : Sound E ctx h160 x) :
     Sound E ctx h160 (.wrap .c x) := by
@@ -940,14 +995,16 @@ theorem sound_andor (x y z : Ms) (ht : Typed ctx (.andor x y z)) (hiy : inS1 y =
         exact ⟨k, σ, hσ, viaY sx sy stk _ al cs hc hsx e⟩
 
 /-- T3 for S1: every typed expression of the fragment set does to the stack what its type says. -/
-theorem sound_s1 (hsig0 : ∀ k, E.sigOK k [] = false) :
+theorem sound_s1 (hsig0 : ∀ k, E.sigOK k [] = false) (hH : ∀ k, E.hashF .hash160 k = h160 k) :
     ∀ (n : Ms), s1Typed ctx n = true → Sound E ctx h160 n
   | .f0, _ => sound_f0 E ctx h160
   | .f1, _ => sound_f1 E ctx h160
   | .pk_k k, _ => sound_pk_k E ctx h160 hsig0 k
+  | .pk_h k, _ => sound_pk_h E ctx h160 hsig0 hH k
+  | .hash h d, _ => sound_hash E ctx h160 h d
   | .wrap w x, h => by
     simp only [s1Typed, Bool.and_eq_true, Bool.or_eq_true, beq_iff_eq, decide_eq_true_eq] at h
-    have ih := sound_s1 hsig0 x h.2
+    have ih := sound_s1 hsig0 hH x h.2
     rcases h.1.1 with ((rfl | rfl) | rfl) | rfl
     · exact sound_c E ctx h160 x h.1.2 ih
     · exact sound_v E ctx h160 x h.1.2 ih
@@ -955,8 +1012,8 @@ theorem sound_s1 (hsig0 : ∀ k, E.sigOK k [] = false) :
     · exact sound_n E ctx h160 x h.1.2 ih
   | .bin b x y, h => by
     simp only [s1Typed, Bool.and_eq_true, Bool.or_eq_true, beq_iff_eq, decide_eq_true_eq] at h
-    have ihx := sound_s1 hsig0 x h.1.2
-    have ihy := sound_s1 hsig0 y h.2
+    have ihx := sound_s1 hsig0 hH x h.1.2
+    have ihy := sound_s1 hsig0 hH y h.2
     rcases h.1.1.1 with ((((rfl | rfl) | rfl) | rfl) | rfl) | rfl
     · exact sound_and_v E ctx h160 x y h.1.1.2 ihx ihy
     · exact sound_and_b E ctx h160 x y h.1.1.2 ihx ihy
@@ -968,9 +1025,9 @@ theorem sound_s1 (hsig0 : ∀ k, E.sigOK k [] = false) :
   | .andor x y z, h => by
     simp only [s1Typed, Bool.and_eq_true, decide_eq_true_eq] at h
     exact sound_andor E ctx h160 x y z h.1.1.1 (inS1_of_s1Typed ctx y h.1.2)
-      (inS1_of_s1Typed ctx z h.2) (sound_s1 hsig0 x h.1.1.2) (sound_s1 hsig0 y h.1.2)
-      (sound_s1 hsig0 z h.2)
-  | .pk_h _, h | .older _, h | .after _, h | .hash _ _, h | .multi _ _, h | .multi_a _ _, h
+      (inS1_of_s1Typed ctx z h.2) (sound_s1 hsig0 hH x h.1.1.2) (sound_s1 hsig0 hH y h.1.2)
+      (sound_s1 hsig0 hH z h.2)
+  | .older _, h | .after _, h | .multi _ _, h | .multi_a _ _, h
   | .thresh _ _ _, h => by simp [s1Typed] at h
 
 end
